@@ -64,3 +64,26 @@ Definition convert_from_object_int (T : ity) (v : Z) (data : list Z) : res unit 
     | UB => (UB, data)
     end.
 
+
+(* ---- the same store at byte offset `off` of a larger object (array item, struct field, global,
+        argument buffer): convert_from_object(data + off, ct, init) touches ct_size bytes there *)
+Definition store_at (T : ity) (v : Z) (off : nat) (mem : list Z) : res unit * list Z :=
+  match convert_from_object_int T v (unit_at off (isize T) mem) with
+  | (r, d) => (r, splice off d mem)
+  end.
+
+(* ---- Python objects other than ints (outside the property's quantifier, modelled because the
+        code has explicit branches for them): _my_PyLong_AsLongLong / AsUnsignedLongLong(strict)
+        refuse floats (and float cdata) with TypeError, call nb_int on anything else that has it and
+        then proceed as for the returned int, and raise TypeError otherwise *)
+Inductive pyobj :=
+| PInt (v : Z)
+| PIntLike (v : Z)      (* not a float; its __int__ returns the int v *)
+| PFloat
+| PNoInt.               (* no nb_int slot (None, str, an object with only __index__, ...) *)
+
+Definition store_obj (T : ity) (o : pyobj) (data : list Z) : res unit * list Z :=
+  match o with
+  | PInt v | PIntLike v => convert_from_object_int T v data
+  | PFloat | PNoInt => (Err TypeError, data)
+  end.
